@@ -8,7 +8,7 @@
    gen <C01DD|C01PDD|C02D|C02P> <nv> <v ...> <np> <p ...>  (floats)                 -> residuals of ALL generated rows
    pumpsmooth <A B C> (floats)                                                    -> a b c d qbar hbar (floats)
    closecv <hs he q> (p/q)                                                        -> <close T|F> <open T|F>
-   closepump <A hs he q> (p/q)                                 -> <close repaired> <open repaired> <close as coded> <power close>
+   closepump <A hs he q> (p/q)                                 -> <close repaired> <open repaired> <close as coded> <power close> <power open> <power close repaired> <power open repaired>
    norev <q p/q>                                                                  -> ok|fail
 -/
 import WntrModel.Model.LinkRows
@@ -153,7 +153,10 @@ def handle (line : String) : String :=
     | some [a, hs, he, q] =>
       showB (closeHeadPump refHtol refQtol a hs he q) ++ " " ++ showB (openHeadPump a hs he) ++ " " ++
         showB (closeHeadPumpAsCoded refHtol a hs he) ++ " " ++
-        showB (closePowerPump refHtol RowsC02.powerHmax hs he)
+        showB (closePowerPump refHtol RowsC02.powerHmax hs he) ++ " " ++
+        showB (openPowerPump refHtol RowsC02.powerHmax hs he) ++ " " ++
+        showB (closePowerPumpRepaired refHtol refQtol RowsC02.powerHmax hs he q) ++ " " ++
+        showB (openPowerPumpRepaired refHtol RowsC02.powerHmax hs he)
     | _ => "bad-op"
   | ["norev", q] =>
     match parseRat q with
